@@ -148,6 +148,12 @@ def exec_lazy(case, out):
         r = Fiber.intersection(a, b, a)
     elif op == "union":
         r = Fiber.union(a, b)
+    elif op == "coitershape":
+        r = Fiber.coiterShape([a, b])
+    elif op == "coiteractiveshape":
+        r = Fiber.coiterActiveShape([a, b])
+    elif op == "coiterrangeshape":
+        r = Fiber.coiterRangeShape([a, b], 1, 4)
     elif op == "prune":
         r = a.prune(lambda i, c, p: c % 2 == 0)
     elif op == "project":
